@@ -147,6 +147,28 @@ func runRelC03(m *Model, c relC03) []Diff {
 		return strings.Join(out, ",")
 	}
 	diffs = append(diffs, cmp("mkdir: From-Root vs From-Markdown", rel(j1, snapshot(j1))+" e="+classify(m1), rel(j2, snapshot(j2))+" e="+classify(m2))...)
+	// Mkdir is an observer like the others: the tree the caller built is, after it, still the tree the Markdown
+	// spells – through every From-Root operation (a second observer sees what the call did to the nodes)
+	wantText := m.Ask("rootout " + c.Fmt.enc() + " n 0 " + mirror.Enc())
+	mdView := c03View(nil, doc, fo, c.Exts)
+	secondLook := func(after string) {
+		if len(diffs) > 0 {
+			return
+		}
+		rv := c03View(root, nil, fo, c.Exts)
+		for i := range rv {
+			diffs = append(diffs, cmp("after "+after+" on the same tree, "+c03ViewNames[i]+": From-Root vs From-Markdown", rv[i], mdView[i])...)
+		}
+		diffs = append(diffs, cmp("after "+after+" on the same tree, text: From-Root vs model", rv[0], wantText)...)
+	}
+	secondLook("MkdirFromRoot")
+	if c.Exts != nil {
+		j5 := newJail()
+		m5 := gtree.MkdirProgrammably(root, gtree.WithTargetDir(filepath.Join(j5, "t")), gtree.WithFileExtensions(c.Exts))
+		diffs = append(diffs, cmp("mkdir: MkdirProgrammably vs From-Markdown", rel(j5, snapshot(j5))+" e="+classify(m5), rel(j2, snapshot(j2))+" e="+classify(m2))...)
+		os.RemoveAll(j5)
+		secondLook("MkdirProgrammably")
+	}
 	// a context that is already cancelled: both names of the From-Root entry point and the From-Markdown
 	// counterpart report it alike (text output, massive option)
 	{
@@ -170,6 +192,7 @@ func runRelC03(m *Model, c relC03) []Diff {
 	if m3 == nil && m4 == nil {
 		diffs = append(diffs, cmp("mkdir+massive: From-Root vs From-Markdown", rel(j3, snapshot(j3)), rel(j4, snapshot(j4)))...)
 	}
+	secondLook("MkdirFromRoot with the massive option")
 	// the root is already there in the target directory (as a directory with something in it, as a file): both
 	// API families judge the names first and the existing root second, create nothing, and say the same
 	for vi, pre := range [][]FSEntry{{{"t", "d"}, {"t/" + c.Root, "d"}, {"t/" + c.Root + "/old", "f1"}}, {{"t", "d"}, {"t/" + c.Root, "f3"}}} {
@@ -225,6 +248,103 @@ func runRelC03(m *Model, c relC03) []Diff {
 	v2 := gtree.VerifyFromMarkdown(bytes.NewReader(doc), gtree.WithTargetDir(t1), gtree.WithStrictVerify())
 	diffs = append(diffs, cmp("verify: From-Root vs From-Markdown", classifyRel(v1, j1), classifyRel(v2, j1))...)
 	return diffs
+}
+
+// c03View: what every From-Root operation (root != nil) or its From-Markdown counterpart gives for the tree as it is now:
+// text with the case's branch strings, the three encodings, callback walk, iterator walk (the callback walk again
+// for Markdown), and a Mkdir into a fresh directory followed by a strict Verify of that directory.
+var c03ViewNames = []string{"text", "json", "yaml", "toml", "walk", "iterator walk", "mkdir into a fresh directory + strict verify"}
+
+func c03View(root *gtree.Node, doc []byte, fo []gtree.Option, exts []string) []string {
+	var out []string
+	output := func(o ...gtree.Option) string {
+		var b bytes.Buffer
+		var err error
+		if root != nil {
+			err = gtree.OutputFromRoot(&b, root, o...)
+		} else {
+			err = gtree.OutputFromMarkdown(&b, bytes.NewReader(doc), o...)
+		}
+		return "w=" + hx(b.Bytes()) + " e=" + classify(err)
+	}
+	out = append(out, output(fo...))
+	for _, format := range []string{"json", "yaml", "toml"} {
+		out = append(out, output(encodeOpt(format)))
+	}
+	walk := func() string {
+		var vs []string
+		cb := func(wn *gtree.WalkerNode) error { vs = append(vs, showVisit(wn)); return nil }
+		var err error
+		if root != nil {
+			err = gtree.WalkFromRoot(root, cb, fo...)
+		} else {
+			err = gtree.WalkFromMarkdown(bytes.NewReader(doc), cb, fo...)
+		}
+		return "v=" + showVisits(vs) + " e=" + classify(err)
+	}
+	out = append(out, walk())
+	if root != nil {
+		var vs []string
+		var ierr error
+		for wn, err := range gtree.WalkIterFromRoot(root, fo...) {
+			if err != nil {
+				ierr = err
+				break
+			}
+			vs = append(vs, showVisit(wn))
+		}
+		out = append(out, "v="+showVisits(vs)+" e="+classify(ierr))
+	} else {
+		out = append(out, walk())
+	}
+	j := newJail()
+	defer os.RemoveAll(j)
+	o := []gtree.Option{gtree.WithTargetDir(filepath.Join(j, "t")), gtree.WithFileExtensions(exts)}
+	var merr, verr error
+	if root != nil {
+		merr = gtree.MkdirFromRoot(root, o...)
+		verr = gtree.VerifyFromRoot(root, gtree.WithTargetDir(filepath.Join(j, "t")), gtree.WithStrictVerify())
+	} else {
+		merr = gtree.MkdirFromMarkdown(bytes.NewReader(doc), o...)
+		verr = gtree.VerifyFromMarkdown(bytes.NewReader(doc), gtree.WithTargetDir(filepath.Join(j, "t")), gtree.WithStrictVerify())
+	}
+	var snap []string
+	for _, e := range snapshot(j) {
+		parts := strings.SplitN(e, ":", 2)
+		snap = append(snap, hxs(strings.TrimPrefix(string(unhx(parts[0])), j))+":"+parts[1])
+	}
+	out = append(out, strings.Join(snap, ",")+" mkdir e="+classify(merr)+" verify e="+classifyRel(verr, j))
+	return out
+}
+
+// fileBeforeDirectory: under some parent a child that Mkdir makes as a file (a leaf whose name ends with one of the
+// extensions) stands before a sibling that it makes as a directory.
+func fileBeforeDirectory(t *Tree, exts []string) bool {
+	isFile := func(k *Tree) bool {
+		if len(k.Kids) > 0 {
+			return false
+		}
+		for _, e := range exts {
+			if strings.HasSuffix(k.Name, e) {
+				return true
+			}
+		}
+		return false
+	}
+	seenFile := false
+	for _, k := range t.Kids {
+		if isFile(k) {
+			seenFile = true
+		} else if seenFile {
+			return true
+		}
+	}
+	for _, k := range t.Kids {
+		if fileBeforeDirectory(k, exts) {
+			return true
+		}
+	}
+	return false
 }
 
 func classifyRel(err error, jail string) string {
@@ -361,8 +481,38 @@ func runC03(ctx *Ctx) *Report {
 			rels = append(rels, c)
 		}
 	}
+	// sibling orders in which files (leaves with one of the extensions) and directories alternate, at several depths:
+	// what Mkdir does with them (which come first, how often the parent is made) must not show in the caller's tree
+	mixed := []string{"x.go", "README.md", "Makefile", "cmd", "docs", "b", "X.go", "lib"}
+	mixedExts := [][]string{{".go", ".md", "Makefile"}, {".go"}, {".md", ".go", ".go"}, {"Makefile", ".md"}}
+	for k := 0; k < pickInt(ctx.Thorough, 4000, 300); k++ {
+		c := relC03{Kind: "c03-rel", Root: "root", Fmt: formats[k%len(formats)], Sp: spellings[k%len(spellings)], Exts: mixedExts[ctx.Rng.Intn(len(mixedExts))]}
+		par := 0
+		for d := ctx.Rng.Intn(3); d > 0; d-- {
+			c.Ops = append(c.Ops, addOp{Parent: par, Name: "lvl"})
+			par = len(c.Ops)
+		}
+		perm := ctx.Rng.Perm(len(mixed))[:2+ctx.Rng.Intn(5)]
+		first := len(c.Ops) + 1
+		for _, pi := range perm {
+			c.Ops = append(c.Ops, addOp{Parent: par, Name: mixed[pi]})
+		}
+		// some of the siblings get children (then they are directories whatever their name), one gets a file below
+		for j := range perm {
+			if ctx.Rng.Intn(3) == 0 {
+				c.Ops = append(c.Ops, addOp{Parent: first + j, Name: mixed[ctx.Rng.Intn(len(mixed))]})
+			}
+		}
+		if ctx.Rng.Intn(2) == 0 {
+			c.Ops = append(c.Ops, addOp{Parent: 0, Name: "main.go"}, addOp{Parent: 0, Name: "zz"})
+		}
+		rels = append(rels, c)
+	}
 	parallel(rels, ctx.Workers, func(m *Model, c relC03) {
 		diffs := runRelC03(m, c)
+		if _, mirror, _ := c.build(); c.Exts != nil {
+			rep.Count("addprog:mkdir then a second observer, a file before a directory sibling=" + b01(fileBeforeDirectory(mirror, c.Exts)))
+		}
 		b, _ := json.Marshal(c)
 		dup := false
 		seen := map[string]bool{}
